@@ -691,9 +691,52 @@ def selftest():
     return 'dual: %d examples, %d derivative entries cross-checked against Richardson differences' % (n, m)
 
 
+MATRIX_ENV = [('x', 4)]
+MATRIX_POINTS = ((0.5, 2.0, -1.5, 1.0), (2.0, 0.5, 1.0, 3.0))
+
+
+def matrix_points(cfg, rep):
+    """Gradient with respect to a 2x2 matrix point in both memory layouts (NumPy backend, numeric differentiation).
+    Every scalar tree T over a 4-vector with <= 2 nodes is turned into f::{g(,/x)}, g::{T}: a function of a matrix;
+    the point is bound as a literal (row-major) and as the transpose of the transposed literal (same values,
+    column-major in memory: what Transpose returns).  Expected: the dual-number gradient of T, reshaped 2x2."""
+    from klongpy import KlongInterpreter
+    trees = scalar_trees(MATRIX_ENV, cfg.pick(2, 3))
+    n = 0
+    for t in trees:
+        for p in MATRIX_POINTS:
+            e = expected_for('grad', MATRIX_ENV, t, p)
+            if e is None:
+                continue
+            scale, exp, _ = e
+            want = [list(exp[0:2]), list(exp[2:4])]
+            c_lit = '[[%s %s] [%s %s]]' % tuple(num(float(v)) for v in p)
+            f_lit = '+[[%s %s] [%s %s]]' % tuple(num(float(v)) for v in (p[0], p[2], p[1], p[3]))
+            for layout, lit_ in (('row-major', c_lit), ('column-major', f_lit)):
+                for form in ('f:>a', 'a∇f'):
+                    k = KlongInterpreter(backend='numpy')
+                    k('.bkf([%s])' % ' '.join('"%s"' % f for f in BKF))
+                    setup = ['g::' + fn_text(t), 'f::{g(,/x)}', 'a::' + lit_]
+                    with runner.watchdog(ITEM_TIMEOUT):
+                        got = evaluate_one(k, setup, 'f:>a' if form == 'f:>a' else 'a∇f')
+                    n += 1
+                    good = got[0] == 'ok' and agree(got[1], want, RTOL['numeric'], ATOL['numeric'] * scale)
+                    if not good and not ill_conditioned(MATRIX_ENV, t, p, 'numeric', scale):
+                        rep.violation('%s|numpy|matrix %s|%s' % (form, layout, fn_text(t)),
+                                      'p=%s %s' % (lit_, ('ok:' + fmt(got[1])) if got[0] == 'ok' else 'exc:' + got[1]),
+                                      'p=%s %s' % (lit_, fmt(want)), case={'part': 'matrix', 'tree': to_list(t), 'point': list(p),
+                                                                         'layout': layout, 'form': form},
+                                      snippet='\n'.join(['from klongpy import KlongInterpreter', 'k = KlongInterpreter()',
+                                                         "k('.bkf([%s])')" % ' '.join('\"%s\"' % f for f in BKF)] +
+                                                        ['k(%r)' % s_ for s_ in setup] + ['print(k(%r))' % ('f:>a' if form == 'f:>a' else 'a∇f')]),
+                                      group='numpy-gradient-at-a-matrix-point')
+    return n
+
+
 def run(cfg):
     rep = runner.Report('C06', 'exploration')
     dual.selftest()
+    n_matrix = matrix_points(cfg, rep)
     items = work_items(cfg)
     sl = os.environ.get('VERIF_C06_SLICE')          # development aid: "i/n" runs every n-th item only (not exhaustive)
     if sl:
@@ -720,7 +763,8 @@ def run(cfg):
              'dual-number derivative; distinct_nontrivial = number of distinct (family, environment, tree, grid point) '
              'inputs inside the smooth domain whose exact derivative has a non-zero entry (each is evaluated under '
              'every form and backend of its plan row); trees are all typed trees up to the node bound, see PLAN',
-        exhaustive=not sl, trees=total['trees'], trees_per_family=fams, points_in_domain=total['points_in_domain'],
+        exhaustive=not sl, trees=total['trees'], trees_per_family=fams,
+        matrix_point_evaluations_both_layouts=n_matrix, points_in_domain=total['points_in_domain'],
         points_outside_domain=total['points_outside_domain'], trees_without_point=total['trees_without_point'],
         distinct_gradients=total['distinct_gradients'], value_checks=total['value_checks'],
         cross_backend_pairs=total['cross_backend_pairs'], timeouts=total['timeouts'],
